@@ -611,6 +611,9 @@ func runGateway(ctx context.Context, be backend.Backend) error {
 	})
 
 	var admOpts []s3api.AdminOpt
+	if readonly {
+		admOpts = append(admOpts, s3api.WithAdminReadOnly())
+	}
 
 	if admCertFile != "" || admKeyFile != "" {
 		if admCertFile == "" {
